@@ -14,7 +14,7 @@ CHECKER = "ctor_checker"
 CASE_TYPE = "ctor_case"
 SHARD = 150
 
-KINDS = ["fromFiber", "fromUncompressed", "fromRandom", "empty", "yaml", "deepcopy-mutated", "makePopulated",
+KINDS = ["copy-root", "copy-root", "fromFiber", "fromUncompressed", "fromRandom", "empty", "yaml", "deepcopy-mutated", "makePopulated",
          "splitUniform", "splitNonUniform", "splitEqual", "splitUnEqual", "swizzle", "swap", "flatten",
          "flatten-unflatten", "merge", "updateCoords", "updatePayloads", "copy-root"]
 
@@ -27,11 +27,28 @@ def gen_case(rng):
         n = 2
         shapes = [rng.randint(2, 5) for _ in range(n)]
     tree = U.gen_fiber(rng, n, shapes, 0)
+    d = rng.choice([0, 0, 0, 7])
+    if d != 0 and rng.random() < 0.7:
+        _zero_some(rng, tree, n)
     return {"kind": kind, "n": n, "shapes": shapes, "tree": tree, "seed": rng.randint(0, 10 ** 6),
             "depth": rng.randint(0, n - 1), "arg": rng.randint(1, 4),
+            # leaf default of the source: under a non-zero default the stored zeros are ordinary values
+            # (and an unowned copy of such a fiber, which guesses default 0, sees them as empty)
+            "d": d,
             "perm": rng.sample(range(n), n),
             "mut": [[rng.randint(0, max(0, shapes[i] - 1)) for i in range(rng.randint(1, n))]
                     for _ in range(rng.choice([0, 0, 1, 2, 3]))]}
+
+
+def _zero_some(rng, t, n):
+    """some leaf fibers hold zeros only (values, under a non-zero default)"""
+    if n == 1:
+        if rng.random() < 0.5:
+            for e in t:
+                e[1] = 0
+        return
+    for _, sub in t:
+        _zero_some(rng, sub, n - 1)
 
 
 def streams(tier, rng):
@@ -102,7 +119,7 @@ def build(case):
     ids = U.RANK_NAMES[:n]
     if kind == "yaml" and U.MODE["vkind"] == "sub":
         U.MODE["vkind"] = "int"     # YAML text represents plain scalars only (C13's domain)
-    base = U.build_tensor(case["tree"], n, case["shapes"], 0)
+    base = U.build_tensor(case["tree"], n, case["shapes"], case.get("d", 0))
     # the source carries a few reference insertions (stored-but-empty sub-fibers, explicit
     # defaults) as real use leaves behind
     for pt in case["mut"]:
